@@ -486,3 +486,215 @@ Proof.
   rewrite merge_loop2; [reflexivity|].
   rewrite correspondence_from, corr_from_keys. now apply edges_lookup.
 Qed.
+
+(** ================================================================== annotate_fragments *)
+Lemma fold_res_pure {A B} (f : B -> A -> res B) (g : B -> A -> B) : (forall b x, f b x = Ok (g b x)) ->
+  forall l b, fold_res f l b = Ok (fold_left g l b).
+Proof. intros H. induction l as [|x r IH]; intros b; cbn [fold_res fold_left]; [reflexivity|]. rewrite H. cbn [bind]. apply IH. Qed.
+
+(** the entries of a 'fragid' list on which model and source agree: ints, and str / None (hashable, never a
+    coarse key).  A bool or float entry equals an int key in Python, an unhashable entry raises TypeError;
+    the hand-written model ignores all of them. *)
+Definition entry_simple (v : pyval) : Prop := match v with VInt _ | VStr _ | VNone => True | _ => False end.
+(** a 'fragid' value: a list/tuple of such entries, or something that is not iterable (TypeError in both);
+    a str or dict value is iterated by the source, the model answers TypeError *)
+Definition fragid_ok (v : pyval) : Prop :=
+  match v with
+  | VList l | VTup l => Forall entry_simple l
+  | VStr _ | VDict _ => False
+  | _ => True
+  end.
+Definition fragids_modelled (mol : graph) : Prop :=
+  all_na (fun d => match aget (S "fragid") d with Some v => fragid_ok v | None => True end) mol.
+
+Lemma simple_eqb x y : entry_simple x -> pyval_eqb x y = true -> x = y.
+Proof.
+  destruct x; cbn; try contradiction; intros _; destruct y; try discriminate.
+  - reflexivity.
+  - intros H. apply Z.eqb_eq in H. now subst.
+  - intros H. apply str_eqb_eq in H. now subst.
+Qed.
+Lemma int_eqb k y : pyval_eqb (VInt k) y = true -> y = VInt k.
+Proof. intros H. symmetry. apply simple_eqb; [exact I|exact H]. Qed.
+Lemma simple_hashable x : entry_simple x -> py_hashable x = true.
+Proof. destruct x; cbn; try contradiction; reflexivity. Qed.
+
+Lemma ddl_get_upd {A} (x : pyval) (xs : list A) k : entry_simple x -> forall d,
+  ddl_get (ddl_upd d x xs) (VInt k) = if pyval_eqb (VInt k) x then ddl_get d (VInt k) ++ xs else ddl_get d (VInt k).
+Proof.
+  intros Sx. induction d as [|[k' l] r IH]; cbn [ddl_upd ddl_get].
+  - destruct (pyval_eqb (VInt k) x); reflexivity.
+  - destruct (pyval_eqb x k') eqn:E.
+    + apply (simple_eqb _ _ Sx) in E. subst k'. cbn [ddl_get]. destruct (pyval_eqb (VInt k) x); reflexivity.
+    + cbn [ddl_get]. destruct (pyval_eqb (VInt k) k') eqn:E2.
+      * apply int_eqb in E2. subst k'. destruct (pyval_eqb (VInt k) x) eqn:E3; [|reflexivity].
+        apply int_eqb in E3. subst x. cbn in E. rewrite Z.eqb_refl in E. discriminate.
+      * exact IH.
+Qed.
+
+Definition annot_inner (x5 : Z) :=
+  (fun (st_ : ddl Z) (it_ : pyval) => let x4 := st_ in let x7 := it_ in
+  x4 <- ddl_append x4 x7 x5 ;;
+  Ok (x4)).
+Lemma annot_inner_loop node l : Forall entry_simple l -> forall d,
+  exists d', fold_res (annot_inner node) l d = Ok d' /\
+             forall k, ddl_get d' (VInt k) = ddl_get d (VInt k) ++ repeat node (zcount k l).
+Proof.
+  induction 1 as [|x r Hx Hr IH]; intros d; cbn [fold_res].
+  - exists d. split; [reflexivity|]. intros k. cbn. now rewrite app_nil_r.
+  - unfold annot_inner at 1. unfold ddl_append. rewrite (simple_hashable x Hx). cbn [bind].
+    destruct (IH (ddl_upd d x [node])) as [d' [E G]]. exists d'. split; [exact E|]. intros k. rewrite G, ddl_get_upd by exact Hx.
+    unfold zcount. cbn [filter]. destruct x; cbn in Hx |- *; try contradiction; try reflexivity.
+    rewrite (Z.eqb_sym k z). destruct (Z.eqb z k); cbn [length repeat]; [now rewrite <- app_assoc|reflexivity].
+Qed.
+
+Definition annot_body1 :=
+  (fun (st_ : ddl Z) (it_ : Z * pyval) => let x4 := st_ in let '(x5, x6) := it_ in
+  t2_ <- py_iter x6 ;; x4 <- fold_res (fun st_ it_ => let x4 := st_ in let x7 := it_ in
+  x4 <- ddl_append x4 x7 x5 ;;
+  Ok (x4)) t2_ (x4) ;;
+  Ok (x4)).
+Lemma annot_body1_list n l d v : Forall entry_simple l -> v = VList l \/ v = VTup l ->
+  exists d1, annot_body1 d (n, v) = Ok d1 /\ forall k, ddl_get d1 (VInt k) = ddl_get d (VInt k) ++ repeat n (zcount k l).
+Proof.
+  intros Hl Hv. destruct (annot_inner_loop n l Hl d) as [d1 [E1 G1]]. exists d1. split; [|exact G1].
+  unfold annot_inner in E1. unfold annot_body1. destruct Hv as [-> | ->]; cbn [py_iter bind]; rewrite E1; reflexivity.
+Qed.
+Lemma annot_loop1 items : Forall (fun kv : Z * pyval => fragid_ok (snd kv)) items -> forall d,
+  match GraphOps.map_res (fun kv : Z * pyval => l <- as_list (snd kv) ;; Ok (fst kv, l)) items with
+  | Ok fm => exists d', fold_res annot_body1 items d = Ok d' /\
+                        forall k, ddl_get d' (VInt k) = ddl_get d (VInt k) ++ members_of fm k
+  | Err e => fold_res annot_body1 items d = Err e
+  end.
+Proof.
+  induction 1 as [|[n v] r Hv Hr IH]; intros d; cbn [GraphOps.map_res fold_res fst snd].
+  - exists d. split; [reflexivity|]. intros k. cbn. now rewrite app_nil_r.
+  - cbn [snd] in Hv.
+    assert (C : (exists l, (v = VList l \/ v = VTup l) /\ Forall entry_simple l) \/ (as_list v = Err EType /\ forall d, annot_body1 d (n, v) = Err EType)).
+    { destruct v; cbn in Hv; try contradiction; try (right; split; [reflexivity|intros; reflexivity]); left; exists l; auto. }
+    destruct C as [[l [Hl Fl]]|[E1 E2]].
+    + destruct (annot_body1_list n l d v Fl Hl) as [d1 [B G1]]. rewrite B. cbn [bind].
+      assert (AL : as_list v = Ok l) by (destruct Hl as [-> | ->]; reflexivity). rewrite AL. cbn [bind].
+      specialize (IH d1). destruct (GraphOps.map_res _ r) as [fm|e]; cbn [bind].
+      * destruct IH as [d' [E G]]. exists d'. split; [exact E|]. intros k. rewrite G, G1. unfold members_of. cbn [flat_map fst snd].
+        now rewrite <- app_assoc.
+      * exact IH.
+    + rewrite E1, E2. reflexivity.
+Qed.
+
+Definition annot_body2 (x0 x2 : graph) (x4 : ddl Z) :=
+  (fun (st_ : fgraphs) (it_ : Z) => let x1 := st_ in let x8 := it_ in
+  let x9 := nx_Graph in
+  x9 <- fold_res (fun st_ it_ => let x9 := st_ in let x5 := it_ in
+  t3_ <- nx_node_attrs x2 x5 ;; let x10 := t3_ in
+  let x9 := nx_add_node x9 x5 x10 in
+  Ok (x9)) (ddl_get x4 (VInt x8)) (x9) ;;
+  let x11 := (py_combinations2 (ddl_get x4 (VInt x8))) in
+  x9 <- fold_res (fun st_ it_ => let x9 := st_ in let '(x12, x13) := it_ in
+  x9 <- (if (nx_has_edge x2 x12 x13) then (let x9 := nx_add_edge x9 x12 x13 [] in
+  Ok (x9)) else (Ok (x9))) ;;
+  Ok (x9)) x11 (x9) ;;
+  x1 <- nx_set_node_graph x0 x1 x8 x9 ;;
+  Ok (x1)).
+Lemma annot_body2_spec meta mol d fm s k : ddl_get d (VInt k) = members_of fm k -> has_node meta k = true ->
+  annot_body2 meta mol d s k = (g <- frag_subgraph mol (members_of fm k) ;; Ok (fg_set k g s)).
+Proof.
+  intros G H. unfold annot_body2, frag_subgraph, nx_set_node_graph, py_combinations2, nx_Graph. rewrite G, H.
+  change (fun (st_ : graph) (it_ : Z) => t3_ <- nx_node_attrs mol it_ ;; Ok (nx_add_node st_ it_ t3_))
+    with (fun acc n => a <- node_attrs mol n ;; Ok (add_node acc n a)).
+  destruct (fold_res _ (members_of fm k) gempty) as [g1|e]; cbn [bind]; [|reflexivity].
+  rewrite (fold_res_pure _ (fun acc ab => if has_edge mol (fst ab) (snd ab) then add_edge acc (fst ab) (snd ab) [] else acc)).
+  - reflexivity.
+  - intros b [x y]. unfold nx_has_edge, nx_add_edge. cbn [fst snd]. now destruct (has_edge mol x y).
+Qed.
+Lemma annot_loop2 meta mol d fm : (forall k, ddl_get d (VInt k) = members_of fm k) ->
+  forall l s, (forall mn, In mn l -> has_node meta (nk mn) = true) ->
+  fold_res (annot_body2 meta mol d) (node_keys l) s
+  = (new <- GraphOps.map_res (fun mn => g <- frag_subgraph mol (members_of fm (nk mn)) ;; Ok (nk mn, g)) l ;;
+     Ok (fold_left (fun s kg => fg_set (fst kg) (snd kg) s) new s)).
+Proof.
+  intros G. induction l as [|mn r IH]; intros s H; cbn [node_keys map fold_res GraphOps.map_res]; [reflexivity|].
+  rewrite (annot_body2_spec meta mol d fm s (nk mn) (G _)) by (apply H; now left).
+  destruct (frag_subgraph mol _) as [g|e]; cbn [bind]; [|reflexivity].
+  fold (node_keys r). rewrite IH by (intros; apply H; now right).
+  destruct (GraphOps.map_res _ r); reflexivity.
+Qed.
+
+Lemma has_node_in g n : In n g -> has_node g (nk n) = true.
+Proof. intros H. apply st_gfind_has. unfold node_keys. now apply in_map. Qed.
+
+(** the source assigns the new fragment graph to the 'graph' attribute of every coarse node: the store the coarse
+    graph had before is updated key by key with the list the model returns *)
+Theorem annotate_is_source : forall meta fgs0 mol, fragids_modelled mol ->
+  gen_annotate_fragments meta fgs0 mol
+  = (new <- GraphOps.annotate_fragments meta mol ;; Ok (fold_left (fun s kg => fg_set (fst kg) (snd kg) s) new fgs0, meta)).
+Proof.
+  intros meta fgs0 mol FM. unfold gen_annotate_fragments, GraphOps.annotate_fragments, fragid_map, nx_get_node_attributes, dict_items.
+  cbv zeta.
+  match goal with |- bind (fold_res ?f _ _) _ = _ => change f with annot_body1 end.
+  pose proof (annot_loop1 (get_node_attributes mol (S "fragid")) (all_na_attr fragid_ok _ mol FM) []) as L1.
+  destruct (GraphOps.map_res _ (get_node_attributes mol (S "fragid"))) as [fm|e]; cbn [bind].
+  2:{ rewrite L1. reflexivity. }
+  destruct L1 as [d [E G]]. rewrite E. cbn [bind]. cbn [ddl_get app] in G.
+  match goal with |- bind (fold_res ?f _ _) _ = _ => change f with (annot_body2 meta mol d) end.
+  unfold nx_nodes. rewrite (annot_loop2 meta mol d fm G meta fgs0 (has_node_in meta)).
+  destruct (GraphOps.map_res _ meta); reflexivity.
+Qed.
+
+(** when the coarse graph carries no fragment graphs yet, or carries one for every node in node order (what
+    resolve_disconnected leaves), the updated store IS the list the model returns *)
+Lemma fg_set_fresh k g s : ~ In k (map fst s) -> fg_set k g s = s ++ [(k, g)].
+Proof.
+  induction s as [|[k' g'] r IH]; cbn; intros H; [reflexivity|].
+  destruct (Z.eqb_spec k k') as [->|N]; [exfalso; apply H; now left|]. rewrite IH; [reflexivity|]. intros X. apply H. now right.
+Qed.
+Lemma fg_fold_fresh new : forall s, NoDup (map fst s ++ map fst new) ->
+  fold_left (fun s (kg : Z * graph) => fg_set (fst kg) (snd kg) s) new s = s ++ new.
+Proof.
+  induction new as [|[k g] r IH]; cbn [fold_left map fst snd]; intros s H; [now rewrite app_nil_r|].
+  rewrite fg_set_fresh.
+  - rewrite IH; [now rewrite <- app_assoc|]. rewrite map_app, <- app_assoc. exact H.
+  - apply NoDup_remove_2 in H. intros X. apply H. apply in_or_app. now left.
+Qed.
+Lemma annotate_keys meta mol new : GraphOps.annotate_fragments meta mol = Ok new -> map fst new = node_keys meta.
+Proof.
+  unfold GraphOps.annotate_fragments. destruct (fragid_map mol) as [fm|]; cbn [bind]; [|discriminate].
+  revert new. induction meta as [|mn r IH]; intros new; cbn [GraphOps.map_res node_keys map].
+  - intros H. inversion H. reflexivity.
+  - destruct (frag_subgraph mol _) as [g|]; cbn [bind]; [|discriminate].
+    destruct (GraphOps.map_res _ r) as [ys|]; cbn [bind]; [|discriminate]. intros H. inversion H. cbn. f_equal. now apply IH.
+Qed.
+Theorem annotate_is_source_fresh : forall meta mol, NoDup (node_keys meta) -> fragids_modelled mol ->
+  gen_annotate_fragments meta [] mol = (new <- GraphOps.annotate_fragments meta mol ;; Ok (new, meta)).
+Proof.
+  intros meta mol ND FM. rewrite annotate_is_source by exact FM.
+  destruct (GraphOps.annotate_fragments meta mol) as [new|e] eqn:E; cbn [bind]; [|reflexivity].
+  rewrite fg_fold_fresh; [reflexivity|]. cbn [map app]. now rewrite (annotate_keys meta mol new E).
+Qed.
+Lemma fg_set_mid k g g' pre post : ~ In k (map fst pre) -> fg_set k g (pre ++ (k, g') :: post) = pre ++ (k, g) :: post.
+Proof.
+  induction pre as [|[k' h] r IH]; cbn; intros H.
+  - now rewrite Z.eqb_refl.
+  - destruct (Z.eqb_spec k k') as [->|N]; [exfalso; apply H; now left|]. rewrite IH; [reflexivity|]. intros X. apply H. now right.
+Qed.
+Lemma fg_fold_replace new : forall pre s, map fst s = map fst new -> NoDup (map fst pre ++ map fst new) ->
+  fold_left (fun s (kg : Z * graph) => fg_set (fst kg) (snd kg) s) new (pre ++ s) = pre ++ new.
+Proof.
+  induction new as [|[k g] r IH]; intros pre s E ND; cbn [fold_left map fst snd] in *.
+  - destruct s; [reflexivity|discriminate].
+  - destruct s as [|[k' g'] s']; [discriminate|]. cbn [map fst] in E. inversion E as [[E1 E2]]. subst k'.
+    rewrite fg_set_mid by (apply NoDup_remove_2 in ND; intros X; apply ND; apply in_or_app; now left).
+    change (pre ++ (k, g) :: s') with (pre ++ [(k, g)] ++ s'). rewrite app_assoc. rewrite IH.
+    + now rewrite <- app_assoc.
+    + exact E2.
+    + rewrite map_app, <- app_assoc. exact ND.
+Qed.
+Theorem annotate_is_source_inplace : forall meta fgs0 mol, NoDup (node_keys meta) -> map fst fgs0 = node_keys meta ->
+  fragids_modelled mol ->
+  gen_annotate_fragments meta fgs0 mol = (new <- GraphOps.annotate_fragments meta mol ;; Ok (new, meta)).
+Proof.
+  intros meta fgs0 mol ND K FM. rewrite annotate_is_source by exact FM.
+  destruct (GraphOps.annotate_fragments meta mol) as [new|e] eqn:E; cbn [bind]; [|reflexivity].
+  pose proof (annotate_keys meta mol new E) as KN.
+  pose proof (fg_fold_replace new [] fgs0) as R. cbn [app map] in R. rewrite R; [reflexivity|congruence|now rewrite KN].
+Qed.
